@@ -766,6 +766,7 @@ def build_hist_case(data):
     groups = sorted({g for _, g in wells})
     mode, status, defstep, clean, seen = {}, {}, {}, {}, []
     locked = set()
+    last_def = {}
     steps = []
 
     # a group may enter the summary state later than the first evaluation (a group that starts reporting at a later
@@ -794,12 +795,15 @@ def build_hist_case(data):
         # reader is evaluated after what it reads under either interpretation.
         if q in locked:
             return ["UPDATE", q, "ON"] if mode.get(q) == "D" else assign(q, True)
+        if q in last_def and src.int(0, 2) == 0:
+            return ["DEFINE", q, last_def[q]]          # the same definition entered again, token for token
         refs = [x for x in seen if x != q and x[0] in "FW" and (q not in seen or seen.index(x) < seen.index(q))]
         ast = GB(src, tk, refs).gen(shape, src.int(0, 2))
         txt = json.dumps(ast)
         for x in refs:
             if '"%s"' % x in txt:
                 locked.add(x)
+        last_def[q] = ast
         return ["DEFINE", q, ast]
 
     def assign(q, full):
@@ -863,8 +867,10 @@ def build_hist_case(data):
                     status[q] = "ON"
                     defstep[q] = s
                     clean[q] = False
-                    if was_off:
-                        # whether a new DEFINE re-enables a switched-off quantity is not stated: say it
+                    if was_off and src.int(0, 1) == 0:
+                        # half of the time the deck says explicitly that the quantity is live again; otherwise the DEFINE
+                        # itself does (UDQ keyword documentation: a DEFINEd quantity is evaluated every step unless an
+                        # UPDATE given AFTER the definition says otherwise) - the later keyword decides
                         recs.append(["UPDATE", q, "ON"])
                 elif r[0] == "UPDATE":
                     status[q] = r[2]
@@ -930,7 +936,7 @@ class C17(Check):
         "part B: a DEFINE may read summary vectors and the quantities introduced before its own (which are then not "
         "DEFINEd again: whether a re-DEFINE keeps its place in the evaluation order is not stated; with both rules the "
         "reader is evaluated after what it reads under either reading); UPDATE OFF/NEXT only for quantities DEFINEd at an earlier step; a "
-        "re-DEFINE of a switched-off quantity is followed by an explicit UPDATE ON; a partial ASSIGN is generated "
+        "re-DEFINE of a switched-off quantity makes it live again (in half of the cases the deck says UPDATE ON explicitly); a partial ASSIGN is generated "
         "only while 'replace the selected elements' and 'replay all ASSIGN records' mean the same",
         "a reduction whose argument has no defined element at evaluation time has no value defined by the "
         "statement: an exception is accepted, a returned value is not asserted (part A, counted by label); such "
